@@ -83,6 +83,9 @@ type SessSpec struct {
 	RebalanceDelayMs int             `json:"rebalance_delay_ms,omitempty"`
 	RollbackMitigation bool          `json:"rollback_mitigation,omitempty"`
 	HealthCheck bool                 `json:"health_check,omitempty"`
+	Highs      map[int]uint64        `json:"highs,omitempty"`       // scripted vBucket high seqnos (synthetic, no items needed)
+	CollHighs  map[int]uint64        `json:"coll_highs,omitempty"`  // scripted high seqno of the configured collections per vBucket
+	Corrupt    []int                 `json:"corrupt,omitempty"`     // vBuckets whose stored checkpoint xattr is not valid JSON (couchbase back end)
 }
 
 // Read is one scrape of GET /states/offset.
@@ -284,6 +287,15 @@ func RunSession(spec *SessSpec) *Trace {
 			env.Sim.Append(uint16(vb), its)
 		}
 	}
+	for vb, h := range spec.Highs {
+		env.Sim.SetHigh(uint16(vb), h)
+	}
+	for vb, h := range spec.CollHighs {
+		for _, id := range spec.Colls {
+			env.Sim.SetCollHigh(uint16(vb), id, h)
+		}
+		env.Sim.SetCollHigh(uint16(vb), 0, h)
+	}
 	for vb, fl := range spec.Failover {
 		var f []cbsim.Failover
 		for _, e := range fl {
@@ -379,10 +391,13 @@ func RunSession(spec *SessSpec) *Trace {
 			for vb, c := range spec.PreStore {
 				m[fmt.Sprint(vb)] = map[string]any{"checkpoint": map[string]any{"vbuuid": c[0], "seqno": c[1], "snapshot": map[string]any{"startSeqno": c[2], "endSeqno": c[3]}}, "bucketUuid": env.Sim.UUID}
 			}
-			b, _ := json.Marshal(m)
+			b, _ := json.MarshalIndent(m, "", "  ") // same layout the library's file back end writes
 			os.WriteFile(tr.FilePath, b, 0o644)
 		}
 	default: // cb
+		for _, vb := range spec.Corrupt {
+			env.Sim.PutDoc(fmt.Sprintf("_connector:cbgo:%s:checkpoint:%d", cfg.Dcp.Group.Name, vb), []byte("{}"), map[string]json.RawMessage{"cbgo": json.RawMessage(`"not-a-checkpoint"`)})
+		}
 		for vb, c := range spec.PreStore {
 			doc := fmt.Sprintf(`{"checkpoint":{"snapshot":{"startSeqno":%d,"endSeqno":%d},"vbuuid":%d,"seqno":%d},"bucketUuid":"%s"}`, c[2], c[3], c[0], c[1], env.Sim.UUID)
 			env.Sim.PutDoc(fmt.Sprintf("_connector:cbgo:%s:checkpoint:%d", cfg.Dcp.Group.Name, vb), []byte("{}"), map[string]json.RawMessage{"cbgo": json.RawMessage(doc)})
